@@ -15,7 +15,7 @@
 //   - rows: the destination measurement, read back with an independent Parquet reader, holds exactly the
 //     rows an independent aggregation of the seeded source rows yields for every completed execution's
 //     recorded window, labelled with that window's recorded START
-//     (label≠window-start / completed-window-output-missing / unexpected-output-rows).
+//     (label≠window-start[(sub-second)] / completed-window-output-missing / unexpected-output-rows).
 package main
 
 import (
@@ -31,8 +31,10 @@ import (
 	"net/http/httptest"
 	"os"
 	"path/filepath"
+	"runtime"
 	"runtime/pprof"
 	"sort"
+	"strconv"
 	"strings"
 	"time"
 
@@ -656,7 +658,11 @@ func classifyRows(o *outcome, want, got []hx.Row) {
 		}
 		x := extra[hit]
 		extra = append(extra[:hit], extra[hit+1:]...)
-		o.add("label≠window-start", fmt.Sprintf("row %s summarises the window starting %s but is stored with time %s",
+		kind := "label≠window-start"
+		if d := x["time"].(int64) - m["time"].(int64); d > 0 && d < 1_000_000 {
+			kind = "label≠window-start(sub-second)" // the label carries a fraction of a second that the window bounds do not
+		}
+		o.add(kind, fmt.Sprintf("row %s summarises the window starting %s but is stored with time %s",
 			sansTime(m), time.UnixMicro(m["time"].(int64)).UTC().Format(time.RFC3339Nano), time.UnixMicro(x["time"].(int64)).UTC().Format(time.RFC3339Nano)))
 	}
 	if len(restMissing) > 0 {
@@ -709,6 +715,10 @@ func passes(quick bool) []pass {
 	if quick {
 		d = 4
 	}
+	// development aid (mutation runs): a smaller bound; the evidence then says exhaustive=false
+	if n, err := strconv.Atoi(os.Getenv("VERIF_C29_DEPTH")); err == nil && n >= 2 && n < d {
+		d = n
+	}
 	return []pass{{"clock@.250s", 250 * time.Millisecond, d}, {"clock@.000s", 0, d - 1}}
 }
 
@@ -727,6 +737,7 @@ type class struct {
 	seq  []int
 	desc string
 	win  []window
+	frac string
 	n    int
 }
 
@@ -760,6 +771,7 @@ func (w *worker) minimise(seq []int, kind string, frac time.Duration) []int {
 }
 
 func runShard(run *ev.Run, idx, total int) {
+	runtime.GOMAXPROCS(2) // 16 shard processes share the machine; histories are sequential
 	if pf := os.Getenv("VERIF_C29_PROF"); pf != "" {
 		f, _ := os.Create(pf)
 		pprof.StartCPUProfile(f)
@@ -770,10 +782,9 @@ func runShard(run *ev.Run, idx, total int) {
 	w := newWorker(root, maxDepth)
 	classes := map[string]*class{}
 	byKind := map[string][]*class{}
-	samples := ev.NewSamples(2)
+	samples, samplesBad := ev.NewSamples(1), ev.NewSamples(1)
 	counters := map[string]int64{}
 	complete := true
-	outcomes := map[string]int64{}
 	for _, p := range passes(run.Quick()) {
 		var k int64
 		for length := 1; length <= p.depth && complete; length++ {
@@ -793,6 +804,7 @@ func runShard(run *ev.Run, idx, total int) {
 						return
 					}
 					o := w.runSeq(seq, p.frac)
+					counters["transitions"] += int64(len(seq))
 					counters["histories"]++
 					counters["histories@"+p.name]++
 					nc, nf := 0, 0
@@ -809,15 +821,24 @@ func runShard(run *ev.Run, idx, total int) {
 					if nc >= 2 {
 						counters["histories_with_2+_completed_windows"]++
 					}
-					if len(o.kinds) == 0 {
-						if length == p.depth && nc >= 3 && nf >= 1 {
-							samples.Add(map[string]any{"pass": p.name, "events": strings.Split(names(seq), ","), "windows": o.windows, "destination_rows": o.dest, "verdict": "holds"})
+					if length == p.depth && nc >= 2 && nf >= 1 {
+						var ks []string
+						for kind := range o.kinds {
+							ks = append(ks, kind)
 						}
+						sort.Strings(ks)
+						smp := map[string]any{"pass": p.name, "events": strings.Split(names(seq), ","), "windows": o.windows, "destination_rows": o.dest, "violations": ks}
+						if len(ks) == 0 {
+							samples.Add(smp)
+						} else {
+							samplesBad.Add(smp)
+						}
+					}
+					if len(o.kinds) == 0 {
 						return
 					}
 					counters["histories_violating"]++
-					for kind, desc := range o.kinds {
-						_ = desc
+					for kind := range o.kinds {
 						var hit *class
 						for _, c := range byKind[p.name+"|"+kind] {
 							if isSubseq(c.seq, seq) {
@@ -828,16 +849,16 @@ func runShard(run *ev.Run, idx, total int) {
 						if hit == nil {
 							min := w.minimise(append([]int{}, seq...), kind, p.frac)
 							sig := kind + "|" + names(min)
-							if p.frac == 0 {
-								sig = kind + "@whole-second-clock|" + names(min)
-							}
 							hit = classes[sig]
 							if hit == nil {
 								mo := w.runSeq(min, p.frac)
-								hit = &class{kind: kind, seq: min, desc: mo.kinds[kind], win: mo.windows}
+								hit = &class{kind: kind, seq: min, desc: mo.kinds[kind], win: mo.windows, frac: "250ms"}
+								if p.frac == 0 {
+									hit.frac = "0"
+								}
 								classes[sig] = hit
-								byKind[p.name+"|"+kind] = append(byKind[p.name+"|"+kind], hit)
 							}
+							byKind[p.name+"|"+kind] = append(byKind[p.name+"|"+kind], hit)
 						}
 						hit.n++
 					}
@@ -851,17 +872,12 @@ func runShard(run *ev.Run, idx, total int) {
 			rec(0)
 		}
 	}
-	_ = outcomes
 	for sig, c := range classes {
-		frac := "250ms"
-		if strings.Contains(sig, "@whole-second-clock|") {
-			frac = "0"
-		}
 		for i := 0; i < c.n; i++ {
-			run.Violate(sig, c.desc, map[string]any{"events": strings.Split(names(c.seq), ","), "clock_fraction": frac, "windows": c.win})
+			run.Violate(sig, c.desc, map[string]any{"events": strings.Split(names(c.seq), ","), "clock_fraction": c.frac, "windows": c.win})
 		}
 	}
-	counters["transitions"] = w.nTrans
+	counters["events_executed_incl_minimisation"] = w.nTrans
 	// distinct observable states are merged by the parent
 	var sb bytes.Buffer
 	for k := range w.states {
@@ -869,10 +885,9 @@ func runShard(run *ev.Run, idx, total int) {
 		sb.WriteByte('\n')
 	}
 	must(os.WriteFile(filepath.Join(os.Getenv("VERIF_C29_ROOT"), fmt.Sprintf("states.%02d", idx)), sb.Bytes(), 0o644), "write states")
-	w.duck.Close()
-	os.RemoveAll(root)
+	os.RemoveAll(root) // the process exits now: DuckDB is not closed (0.8 s per shard)
 	pprof.StopCPUProfile()
-	run.FinishShard(counters, samples.List(), complete)
+	run.FinishShard(counters, append(samples.List(), samplesBad.List()...), complete)
 }
 
 func replay(run *ev.Run) {
@@ -960,7 +975,7 @@ func main() {
 	if len(samples) == 0 {
 		samples = []any{map[string]any{"note": "no clean history with 3 completed and 1 failed execution in this run"}}
 	}
-	run.Coverage["exhaustive"] = complete
+	run.Coverage["exhaustive"] = complete && os.Getenv("VERIF_C29_DEPTH") == ""
 	run.Coverage["states"] = len(states)
 	run.Coverage["transitions"] = counters["transitions"]
 	run.Coverage["traces_validated_against_impl"] = counters["histories"]
